@@ -260,8 +260,19 @@ def target_of(fi, call):
     return "expr"
 
 
+def site_ordinal(fi, call, wrapper, idx):
+    """1-based position of this wrapper call among the calls of the same wrapper in the function (source order)"""
+    same = []
+    for c in df.calls(fi.node, into_nested=False):
+        r = idx.resolve_expr(fi.module, c.func, fi)
+        if r is not None and r.kind == "class" and (r.val.name == wrapper or (wrapper == "SelfAdjoint" and r.val.name == "Hermitian")):
+            same.append(c)
+    same.sort(key=lambda c: (c.lineno, c.col_offset))
+    return same.index(call) + 1 if call in same else 0
+
+
 def check_site(idx, rep, res, ortho, fi, call, wrapper):
-    construct = f"{role(fi)}:{wrapper}->{target_of(fi, call)}"
+    construct = f"{role(fi)}:{wrapper}#{site_ordinal(fi, call, wrapper, idx)}"
     loc = idx.loc(fi.module, call)
     env = {}
     rule = getattr(fi, "rule", None)
